@@ -55,6 +55,7 @@ type loopInfo struct {
 }
 
 type Gen struct {
+	inlineOf     *Gen // non-nil: executing a contract-less helper in place on behalf of inlineOf
 	usedSites    map[string]bool
 	sitePos      token.Pos
 	eng          *Engine
@@ -149,12 +150,21 @@ func (g *Gen) srcLine(pos token.Pos) string {
 }
 
 func (g *Gen) fnShort() string {
+	if g.inlineOf != nil {
+		return g.inlineOf.fnShort()
+	}
 	s := g.fn.String()
 	s = strings.ReplaceAll(s, "github.com/pegnet/pegnetd/", "")
 	return s
 }
 
 func (g *Gen) addObl(kind, label string, st *State, goal string, pos token.Pos) *Obligation {
+	if g.inlineOf != nil {
+		// raised while executing a helper in place: named after the caller, counted by the caller
+		o := g.inlineOf.addObl(kind, "in "+g.fn.Name()+": "+label, st, goal, pos)
+		o.PrefixLen = len(g.sc.lines)
+		return o
+	}
 	base := fmt.Sprintf("%s/%s:%s", g.fnShort(), kind, label)
 	g.nameCt[base]++
 	name := base
